@@ -307,3 +307,62 @@ def notifications_unit(ctx):
     ctx.check("__exit__:sets-the-done-event-THEN-joins-the-update-thread(so-the-final-rendering-happens-before-run-returns)",
               bool([e for e in log if e in ("event.set", "thread.join")] == ["event.set", "thread.join"] and t.joined == 1))
     return "exit"
+
+
+@unit("misc.progress-factories", props=["C20", "C15"],
+      functions=[("progress/__init__.py", "composite_progress"), ("progress/__init__.py", "html_progress"), ("progress/_progress.py", "Progress.observer"), ("progress/_progress.py", "Progress.__init__")],
+      assumptions=["the bundled observers are single-use (their done event stays set, their state keeps the counts of the run they observed)"], min_obligations=4, kind="concrete-parametric")
+def progress_factories_unit(ctx):
+    """every run gets FRESH single-use observers: Progress.observer() calls its factory each time; a composite creates a new composite from new member
+    observers on every observer() call (never observers created once and reused); html_progress binds the output and the three intervals"""
+    import functools
+
+    pr_env = {}
+    P_init = get("progress/_progress.py", "Progress.__init__").compile_into(pr_env)
+    P_obs = get("progress/_progress.py", "Progress.observer").compile_into(pr_env)
+
+    class Progress:
+        __init__ = P_init
+        observer = P_obs
+
+    made = []
+
+    class Member(Progress):
+        def __init__(self, tag):
+            self.tag = tag
+            Progress.__init__(self, self._mk)
+
+        def _mk(self):
+            o = ("observer-of", self.tag, len(made))
+            made.append(o)
+            return o
+
+    class CompositeProgressObserver:
+        def __init__(self, members):
+            self.members = list(members)
+
+    class HtmlProgressObserver:
+        def __init__(self, output, **kw):
+            self.output, self.kw = output, kw
+
+    env = {"Progress": Progress, "CompositeProgressObserver": CompositeProgressObserver, "HtmlProgressObserver": HtmlProgressObserver, "partial": functools.partial}
+    cp = get("progress/__init__.py", "composite_progress", cut_comps=False).compile_into(env)
+    a, b = Member("a"), Member("b")
+    comp = cp(a, b)
+    ctx.check("composite_progress:creates-no-observer-before-a-run-asks-for-one", bool(made == [] and isinstance(comp, Progress)))
+    o1 = comp.observer()
+    o2 = comp.observer()
+    ok = (isinstance(o1, CompositeProgressObserver) and isinstance(o2, CompositeProgressObserver) and o1 is not o2
+          and [m[1] for m in o1.members] == ["a", "b"] and [m[1] for m in o2.members] == ["a", "b"]
+          and len(made) == 4 and not (set(map(id, o1.members)) & set(map(id, o2.members))))
+    ctx.check("composite_progress:every-observer()-call-builds-a-new-composite-from-NEW-member-observers-in-order(single-use-displays-are-never-reused-across-runs)", bool(ok), info=str(made))
+    hp = get("progress/__init__.py", "html_progress").compile_into(env)
+    OUT = object()
+    h = hp(OUT)
+    h1, h2 = h.observer(), h.observer()
+    ctx.check("html_progress:a-fresh-HtmlProgressObserver(output,...intervals)-per-run", bool(isinstance(h1, HtmlProgressObserver) and h1 is not h2 and h1.output is OUT and h2.output is OUT
+                                                                                         and set(h1.kw) == {"initial_update_delay", "min_update_interval", "max_update_interval"}))
+    calls = []
+    p = Progress(lambda: calls.append(1) or ("fresh", len(calls)))
+    ctx.check("Progress.observer:calls-the-factory-on-every-call", bool(p.observer() == ("fresh", 1) and p.observer() == ("fresh", 2)))
+    return "ok"
